@@ -22,10 +22,10 @@ for f in demo.sh demo.c; do [ -f "$OUT/$f" ] && cp "$OUT/$f" .; done
 for f in "$OUT"/*.py "$OUT"/*.c "$OUT"/*.sh "$OUT"/*.awk; do [ -f "$f" ] && cp "$f" .; done 2>/dev/null
 if ! git apply "$OUT/patch.diff"; then echo "PATCH DOES NOT APPLY"; applies=no; else applies=yes; fi
 make -s >/dev/null 2>&1; built=$?
-sed "s#/tmp/.neatvi#$W/.nvtmp#g" test.sh > mytest.sh; tests=$(sh mytest.sh 2>/dev/null | grep -c OK)
-sh demo.sh > demo_with.log 2>&1; with=$?
+sed "s#/tmp/.neatvi#$W/.nvtmp#g" test.sh > mytest.sh; tests=$(timeout 300 sh mytest.sh 2>/dev/null </dev/null | grep -c OK)
+timeout 600 sh demo.sh > demo_with.log 2>&1 </dev/null; with=$?
 git checkout -q -- . ; make -s clean >/dev/null 2>&1; make -s >/dev/null 2>&1
-sh demo.sh > demo_without.log 2>&1; without=$?
+timeout 600 sh demo.sh > demo_without.log 2>&1 </dev/null; without=$?
 echo "confirm: applies=$applies build_rc=$built tests_ok=$tests/60 demo_with_change_rc=$with demo_without_rc=$without"
 cd /verif
 git -C /repo worktree remove --force "$W" >/dev/null 2>&1
